@@ -118,3 +118,8 @@ Fixpoint mapM_res {A B} (f : A -> res B) (l : list A) : res (list B) :=
   | [] => Ok []
   | a :: r => let* b := f a in let* bs := mapM_res f r in Ok (b :: bs)
   end.
+
+(* linear-time list reversal for the extracted code ([List.rev] is quadratic) *)
+Definition frev {A} (l : list A) : list A := rev_append l [].
+Lemma frev_rev {A} (l : list A) : frev l = rev l.
+Proof. unfold frev. symmetry. apply rev_alt. Qed.
